@@ -457,7 +457,13 @@ pub fn run(r: &mut Runner) {
                 key.pop();
             }
         }
-        let version = if c.t.bool() { Some(format!("v{}", c.t.string(Alpha::Simple, 12))) } else { None };
+        // version ids are opaque tokens: letters, digits, '.', '_', '-' and base64 padding '=' (also in the middle)
+        let version = if c.t.bool() {
+            let n = 1 + c.t.len(23);
+            Some((0..n).map(|_| { const A: &[u8] = b"abcdefghijklmnopqrstuvwxyzABCDEFGHIJKLMNOPQRSTUVWXYZ0123456789._-=="; A[c.t.below(A.len())] as char }).collect::<String>())
+        } else {
+            None
+        };
         copy_source_case(c, &bucket, &key, version.as_deref())
     });
     r.search("content-type", r.scale(60_000, 2_000_000), 128, content_type_case);
